@@ -11,6 +11,13 @@
    byte-level action / crash outcome of a disk corresponds to L2's), restarts
    and failed fsyncs, and the composition with the WAL operations and the crash
    histories of crash_refinement by a lock-step run of the byte disk.
+   Section 7 (Link/IndexStart*.v): the IndexStart recorded in the metadata is
+   the index start of the file, in every state of every accepted history, hence
+   GetLog down to bytes without side hypothesis (Link_get_log).  Section 8
+   (Link/FaultDisk*.v, FaultLink*.v, FaultIS*.v): the histories with injected
+   I/O errors of Wal/FaultHist.v (C10) at byte level -- stale bytes behind the
+   valid chain, restarts re-establishing "image, then zeros", GetLog and the
+   nominal state of fault_safety from bytes.
 
    Vocabulary (Link/Abs.v):
      enc l                 the bytes stored for record l (its BinaryCodec encoding)
@@ -34,6 +41,11 @@ From RW Require Import Base.Bytes Base.BytesFacts Base.Crc32c Fmt.Codec Fmt.Fram
      Link.Disk Link.DiskFacts1 Link.DiskFacts2 Link.DiskFacts3
      Link.Compose Link.ComposeFacts1 Link.ComposeFacts2 Link.ComposeFacts3 Link.ComposeFacts4
      Link.ComposeFacts5 Link.ComposeFacts6 Link.ComposeFacts7
+     Link.IndexStart Link.IndexStartFacts1 Link.IndexStartFacts2 Link.IndexStartFacts3 Wal.CrashExamples
+     Seg.FailFacts Wal.FaultHist Wal.FaultInv Wal.FaultThm
+     Link.FaultDisk Link.FaultDiskFacts1 Link.FaultDiskFacts2 Link.FaultDiskFacts3 Link.FaultDiskFacts4
+     Link.FaultLink Link.FaultLinkFacts1 Link.FaultLinkFacts2 Link.FaultLinkFacts3
+     Link.FaultIS Link.FaultISFacts1 Link.FaultISFacts2 Link.FaultISFacts3 Link.FaultExamples
      Run.RunSeg Run.RunSegFacts Gen.Constants.
 Open Scope N_scope.
 
@@ -782,17 +794,10 @@ Theorem Link_get_log_partial :
 Proof. exact get_log_link. Qed.
 Print Assumptions Link_get_log_partial.
 
-(* the full statement about GetLog, without the hypothesis on the recorded index
-   start (no WAL-level invariant speaks about si_index_start: L2's seg_read does
-   not use it).  NOT proved; Link_get_log_partial is the partial result, and the missing
-   ingredient is exactly: for every listed non-tail segment s with file f,
-   si_index_start s = cur_seal f <> 0 in every state of an accepted history
-   (the other half of seg_meta_ok, si_base s <= si_min s, is LInv_base_le_min). *)
-Definition Link_get_log_stmt : Prop :=
-  forall c nb w bd e idx l e',
-    cfg_ok c -> LInv c nb w (e_disk e) -> wlink c w bd (e_disk e) ->
-    get_log w idx e = (RLog l, e') ->
-    exists p, bread c w bd (e_disk e) idx p /\ decode_log p = Some l.
+(* the full statement about GetLog, without the hypothesis seg_meta_ok, is
+   Link_get_log (section 7, link3): the recorded IndexStart of every listed
+   sealed segment IS the index start of its file in every state of every
+   accepted history (invariant ISd). *)
 
 (* HISTORIES (Wal/Hist.v: calls, power loss after any j actions of a call or of
    Open with any crash choice, reopen; the histories crash_refinement is about).
@@ -875,6 +880,401 @@ Theorem Link_crash_in_open_covered :
                    GI c (nb + 2) (hstep_run c h (HCrashInOpen j cc)).
 Proof. exact crash_in_open_covered. Qed.
 Print Assumptions Link_crash_in_open_covered.
+
+(* ================================================================== *)
+(* 7. The recorded IndexStart (link3: Link/IndexStart.v, IndexStartFacts1-3.v)
+
+   The sealed reader takes the offset of the index block from the METADATA
+   (si_index_start); L2's seg_read ignores the field, so DIs / LInv say nothing
+   about it.  ISd d: every segment listed as sealed whose file exists records
+   the index start of that file, and it is not 0.  It is established where a
+   segment becomes sealed in the metadata -- rotation (st_rotate = the seal
+   offset of the tail file), tail truncation (the force-sealed writer's index
+   start = the seal offset of the batch just fsynced), Open completing an
+   interrupted rotation (cur_seal of the recovered file) -- and kept by
+   everything else.  The statement of link2 (hypotheses LInv and wlink only) was
+   not provable: LInv does not constrain the field.                        *)
+
+(* one action between two disks satisfying the structural invariant *)
+Theorem Link_ISd_step :
+  forall c nb nb' d a,
+    DIs c nb d -> DIs c nb' (apply_act d a) -> ISd d ->
+    (forall ps, a = ACommit ps -> ISs d (ps_segs ps)) ->
+    ISd (apply_act d a).
+Proof. exact ISd_step. Qed.
+Print Assumptions Link_ISd_step.
+
+(* power loss *)
+Theorem Link_ISd_crash : forall c nb cc d, DIs c nb d -> ISd d -> ISd (crash_disk cc d).
+Proof. exact ISd_crash. Qed.
+Print Assumptions Link_ISd_crash.
+
+(* every call: each metadata commit installs segments justified on the disk of
+   that moment (ctr), so ISd holds on every disk the call passes through *)
+Theorem Link_step_commits :
+  forall c nb s o r s' a,
+    cfg_ok c -> nb + 2 < two64 -> LInv c nb (ss_wal s) (e_disk (ss_env s)) -> e_fault (ss_env s) = None ->
+    sp_of (e_disk (ss_env s)) = a -> ISd (e_disk (ss_env s)) ->
+    step_model c s o = (r, s') -> ctr (ss_env s) (ss_env s').
+Proof. exact step_ctr. Qed.
+Print Assumptions Link_step_commits.
+
+Theorem Link_open_commits :
+  forall c nb e res e',
+    e_fault e = None -> DIs c nb (e_disk e) -> ISd (e_disk e) -> open_wal c e = (res, e') -> ctr e e'.
+Proof. exact open_wal_ctr. Qed.
+Print Assumptions Link_open_commits.
+
+Theorem Link_ISd_every_disk :
+  forall c nb (P : disk -> Prop) e e',
+    (forall d, P d -> DIs c nb d) -> ext P e e' -> ctr e e' -> ISd (e_disk e) ->
+    forall j, ISd (fold_left apply_act (firstn j (new_acts e e')) (e_disk e)).
+Proof. exact ext_ctr_prefix. Qed.
+Print Assumptions Link_ISd_every_disk.
+
+(* the invariant of crash_refinement, extended: GIS = GI /\ ISd (disk of the state) *)
+Theorem Link_index_start_step :
+  forall c nb h st,
+    cfg_ok c -> hstep_wf st -> nb + 2 < two64 -> GIS c nb h -> GIS c (nb + 2) (hstep_run c h st).
+Proof. exact GIS_step. Qed.
+Print Assumptions Link_index_start_step.
+
+Theorem Link_index_start_history :
+  forall c steps, cfg_ok c -> Forall hstep_wf steps -> short_enough steps ->
+    GIS c (2 * N.of_nat (length steps)) (hist_run c hist_init steps).
+Proof. exact hist_GIS. Qed.
+Print Assumptions Link_index_start_history.
+
+(* the hypothesis of Link_get_log_partial follows *)
+Theorem Link_seg_meta : forall c nb w d, LInv c nb w d -> ISd d -> seg_meta_ok w d.
+Proof. exact LInv_seg_meta. Qed.
+Print Assumptions Link_seg_meta.
+
+Theorem Link_get_log_state :
+  forall c nb w bd e idx l e',
+    LInv c nb w (e_disk e) -> ISd (e_disk e) -> wlink c w bd (e_disk e) ->
+    get_log w idx e = (RLog l, e') ->
+    exists p, bread c w bd (e_disk e) idx p /\ decode_log p = Some l.
+Proof. exact get_log_bytes. Qed.
+Print Assumptions Link_get_log_state.
+
+(* GETLOG DOWN TO BYTES, EVERY HISTORY.  After every history accepted by
+   crash_refinement that leaves the WAL running there is a byte disk linked to
+   L2's disk (lock-step run, Link_history) such that for EVERY index, whatever
+   entry GetLog returns is the decoding of the bytes the byte-level reader
+   (tail reader with the linked writer's offsets, or sealed reader with the
+   METADATA's IndexStart) returns from the byte-level file of the segment. *)
+Definition Link_get_log_stmt : Prop :=
+  forall c steps s,
+    cfg_ok c -> Forall hstep_wf steps -> short_enough steps ->
+    hs_mode (hist_run c hist_init steps) = Up s ->
+    exists bd, wlink c (ss_wal s) bd (e_disk (ss_env s)) /\
+      forall idx l e', get_log (ss_wal s) idx (ss_env s) = (RLog l, e') ->
+        exists p, bread c (ss_wal s) bd (e_disk (ss_env s)) idx p /\ decode_log p = Some l.
+
+Theorem Link_get_log : Link_get_log_stmt.
+Proof. exact hist_get_log. Qed.
+Print Assumptions Link_get_log.
+
+(* non-vacuity: (base, sealed, recorded IndexStart, index start of the file) of
+   the listed segments at the end of histories of Wal/CrashExamples.v --
+   Open completing a rotation interrupted before its commit (160 = batch 1 of
+   96 bytes, the entry frame of 56 of batch 2, the 8-byte header of the index
+   frame: the offset of the index block); a tail truncation interrupted after its force-seal, completed by
+   Open; the same truncation committed by the running process *)
+Example Link_ex_index_start :
+  is_shape cfg128 hist_rotation_before_commit = [(1, true, 160, 160); (3, false, 0, 0)] /\
+  is_shape cfg256 hist_trunc_after_forceseal = [(1, true, 216, 216); (4, false, 0, 0)] /\
+  is_shape cfg256 [HOpen; HOp (OStore [ex_log 1 1; ex_log 2 1; ex_log 3 1]); HOp (ODelete 3 3)]
+    = [(1, true, 216, 216); (3, false, 0, 0)].
+Proof. vm_compute. auto. Qed.
+
+(* ================================================================== *)
+(* 8. HISTORIES WITH INJECTED FAULTS AT BYTE LEVEL (link3: Link/FaultDisk.v,
+   FaultDiskFacts1-4.v, FaultLink.v, FaultLinkFacts1-3.v, FaultIS.v,
+   FaultISFacts1-3.v).  The histories are those of Wal/FaultHist.v (C10): calls
+   with a counted fault and the fault modes (deletions fail, the listing fails,
+   a failed creation leaves the empty file), restarts without power loss.
+
+   After a failed fsync the bytes of the batch stay behind the valid chain and
+   later writes go over them, so a file is "image, then ANYTHING" -- the weak
+   relation wfrep_at / wdrep.  (1) every L2 step is matched by byte-level
+   actions keeping wdrep and the link of the rolled-back tail writer (WL);
+   (2) at a restart / reopen the byte-level recovery of every file (page cache
+   kept, recoverTailState + zeroStaleTail: brestart) yields a disk related by
+   the STRONG relation drep to adopt_disk, under stale_free (no commit frame in
+   the leftovers verifies: Seg/FailFacts.v no_stale_commit, decidable);
+   (3) GetLog of the running process, and whatever the nominal state of
+   fault_safety holds, is the decoding of what the byte-level readers return. *)
+
+(* strong implies weak *)
+Theorem Link_drep_wdrep : forall c bd d, drep c bd d -> wdrep c bd d.
+Proof. exact drep_wdrep. Qed.
+Print Assumptions Link_drep_wdrep.
+
+(* the actions *)
+Theorem Link_wdisk_create :
+  forall c bd d n size, wdrep c bd d -> hdr_wf (finfo c n) ->
+    wdrep c (bapply bd (BCreate n size)) (apply_act d (ACreate n size)).
+Proof. exact wcreate_drep. Qed.
+Print Assumptions Link_wdisk_create.
+Theorem Link_wdisk_delete : forall c bd d n, wdrep c bd d -> wdrep c (bapply bd (BDelete n)) (apply_act d (ADelete n)).
+Proof. exact wdelete_drep. Qed.
+Print Assumptions Link_wdisk_delete.
+Theorem Link_wdisk_sync : forall c bd d n, wdrep c bd d -> wdrep c (bapply bd (BSync n)) (apply_act d (ASync n)).
+Proof. exact wsync_drep. Qed.
+Print Assumptions Link_wdisk_sync.
+
+(* the write over leftovers: whatever lies behind the image of the committed
+   batches bs (incl. a complete batch whose fsync failed, pending in L2), one
+   successful operation of the byte-level writer of that image writes
+   batch_write at the end of the image; L2 REPLACES its pending batch *)
+Theorem Link_wdisk_write :
+  forall c bd d info n bs pb0 bf f op w1' acts b ls,
+    let s := cstate info bs in
+    let new := batch_write info s b in
+    let off := len (image info bs) in
+    let aw := AWrite n off (len new) (pb_of ls w1') in
+    wdrep c bd d -> name_of info = n -> hdr_eq info (finfo c n) ->
+    lookup n (dk_files d) = Some f -> blookup n bd = Some bf -> wfrep_at info bs pb0 bf f ->
+    SegAbs.wrun (wst info s) [op] = Some (w1', acts, [b]) -> fst b = map enc ls -> logs_ok ls ->
+    len (image info (bs ++ [b])) < two32 ->
+    acts = [WWrite off new; WSync] /\ w1' = wst info (cstate info (bs ++ [b])) /\
+    wdrep c (bapply bd (BWrite n off new)) (apply_act d aw) /\
+    lookup n (dk_files (apply_act d aw)) = Some (written f (pb_of ls w1')) /\
+    blookup n (bapply bd (BWrite n off new)) = Some (bwrite_file bf off new) /\
+    wfrep_at info bs (Some b) (bwrite_file bf off new) (written f (pb_of ls w1')).
+Proof. exact wwrite_drep. Qed.
+Print Assumptions Link_wdisk_write.
+
+(* (2) ONE FILE at a restart: fail_recover / recover_behind applied to the file
+   of the weak relation *)
+Theorem Link_fault_restart_file :
+  forall info bs pb bf f,
+    hdr_wf info -> wfrep_at info bs pb bf f -> no_stale_commit (bf_data bf) (cur_end f) ->
+    let bs' := bs ++ opt_batch pb in
+    recover_state info (bf_data bf) = Some (wst info (cstate info bs')) /\
+    frep_at info bs' None (bscrub_file info (badopt_file bf)) (adopt_file f).
+Proof. exact wfrep_restart. Qed.
+Print Assumptions Link_fault_restart_file.
+
+(* (2) THE DISK at a restart *)
+Theorem Link_fault_restart :
+  forall c bd d, wdrep c bd d -> NoDup (map fst (dk_files d)) -> stale_free bd d ->
+    drep c (brestart c bd) (adopt_disk d).
+Proof. exact wrestart. Qed.
+Print Assumptions Link_fault_restart.
+
+(* (1) one commit of the tail writer with any fault position: both succeed /
+   the fsync fails (bytes stay, writers rolled back) / the write fails *)
+Theorem Link_fault_commit :
+  forall c tw info bs bd e op ls w1' new tot pb tw',
+    let n := ws_name tw in
+    let aw := AWrite n (ws_off tw) tot pb in
+    let e' := do_acts e [aw; ASync n] in
+    wdrep c bd (e_disk e) -> NoDup (map fst (dk_files (e_disk e))) ->
+    wtail_link c tw info bs bd (e_disk e) -> logs_ok ls ->
+    do_op (wst info (cstate info bs)) op = (WOk, w1', [WWrite (ws_off tw) new; WSync]) ->
+    wop_of pb = op -> op_batch (wst info (cstate info bs)) w1' op = [(map enc ls, sealed w1')] ->
+    len new = tot -> len (batch_write info (cstate info bs) (map enc ls, sealed w1')) = tot ->
+    rep_w w1' tw' -> ws_name tw' = n -> pb = pb_of ls w1' ->
+    ws_off tw + tot < two32 ->
+    exists bd',
+      werun c bd e bd' e' /\ NoDup (map fst (dk_files (e_disk e'))) /\
+      if both_ok (e_fault e) then exists bs', wtail_link c tw' info bs' bd' (e_disk e')
+      else wtail_link c tw info bs bd' (e_disk e').
+Proof. exact wcommit_link. Qed.
+Print Assumptions Link_fault_commit.
+
+(* (1) the operations, whatever fails (no hypothesis on e_fault / e_fx) *)
+Theorem Link_fault_store_logs :
+  forall c w ls bd e r w' e',
+    cfg_ok c -> WL c w bd (e_disk e) -> st_next_id w + 1 < two64 ->
+    logs_ok ls -> frames_size ls < two30 ->
+    store_logs c w ls e = (r, w', e') -> wop_link c bd e w' e'.
+Proof. exact store_logs_wlink. Qed.
+Print Assumptions Link_fault_store_logs.
+
+Theorem Link_fault_delete_range :
+  forall c w mn mx bd e r w' e',
+    cfg_ok c -> WL c w bd (e_disk e) -> st_next_id w + 1 < two64 ->
+    delete_range c w mn mx e = (r, w', e') -> wop_link c bd e w' e'.
+Proof. exact delete_range_wlink. Qed.
+Print Assumptions Link_fault_delete_range.
+
+Theorem Link_fault_rotate :
+  forall c w bd e w' e',
+    cfg_ok c -> WL c w bd (e_disk e) -> st_next_id w + 1 < two64 ->
+    rotate c w e = (w', e') ->
+    wop_link c bd e w' e' /\ st_next_id w' <= st_next_id w + 1.
+Proof. exact rotate_wlink. Qed.
+Print Assumptions Link_fault_rotate.
+
+Theorem Link_fault_open :
+  forall c bd e res e',
+    cfg_ok c -> wdrep c bd (e_disk e) -> NoDup (map fst (dk_files (e_disk e))) ->
+    no_pend (e_disk e) -> meta_small (e_disk e) ->
+    open_wal c e = (res, e') ->
+    exists bd', werun c bd e bd' e' /\ NoDup (map fst (dk_files (e_disk e'))) /\
+                match res with OOk w => wtail_linked c (st_tail w) bd' (e_disk e') | OErr _ => True end.
+Proof. exact open_wal_wlink. Qed.
+Print Assumptions Link_fault_open.
+
+Theorem Link_fault_step :
+  forall c s o bd r s',
+    cfg_ok c -> sop_ok o -> o <> OReopen -> WL c (ss_wal s) bd (e_disk (ss_env s)) ->
+    st_next_id (ss_wal s) + 2 < two64 -> step_model c s o = (r, s') ->
+    wop_link c bd (ss_env s) (ss_wal s') (ss_env s') /\ st_next_id (ss_wal s') <= st_next_id (ss_wal s) + 2.
+Proof. exact step_wlink. Qed.
+Print Assumptions Link_fault_step.
+
+(* (1)+(2) every step of a history: FHL (the invariant: WL for a running WAL,
+   wdrep for one whose Open failed) is kept, and the step has a byte-level step
+   (fbstep: a weak lock-step run of the effective actions; at a restart / reopen
+   first brestart, which needs stale_free) *)
+Theorem Link_fault_history_step :
+  forall c nb h st bd,
+    cfg_ok c -> fstep_wf st -> nb + 2 < two64 -> FInv c nb h -> FHL c nb h bd ->
+    (is_restart st = true -> stale_free bd (fdisk h)) ->
+    exists bd', fbstep c h bd st bd' /\ FHL c (nb + 2) (fstep_run c h st) bd'.
+Proof. exact fault_step_link. Qed.
+Print Assumptions Link_fault_history_step.
+
+(* every byte-level run of a history ends weakly related to L2's disk *)
+Theorem Link_fault_run_sound :
+  forall c steps nb h bd h' bd',
+    cfg_ok c -> Forall fstep_wf steps -> nb + 2 * N.of_nat (length steps) < two64 ->
+    FInv c nb h -> wdrep c bd (fdisk h) ->
+    fbrun c h bd steps h' bd' -> h' = fault_run c h steps /\ wdrep c bd' (fdisk h').
+Proof. exact fbrun_sound. Qed.
+Print Assumptions Link_fault_run_sound.
+
+(* the recorded IndexStart (section 7) along histories with faults: FJH = every
+   segment listed as sealed, in memory or in the metadata, whose file exists
+   records the seal offset of that file, which has nothing pending *)
+Theorem Link_fault_index_start_step :
+  forall c nb h st bd,
+    cfg_ok c -> fstep_wf st -> nb + 2 < two64 -> FInv c nb h -> FHL c nb h bd -> FJH h ->
+    FJH (fstep_run c h st).
+Proof. exact fault_step_FJ. Qed.
+Print Assumptions Link_fault_index_start_step.
+
+(* EVERY HISTORY WITH INJECTED FAULTS HAS A BYTE-LEVEL RUN (given that no commit
+   frame in the leftovers verifies at the restarts: restarts_clean); at its end
+   the WAL is linked to the byte disk, the invariant of fault_safety holds, and
+   so does the IndexStart invariant *)
+Definition Link_fault_history_stmt : Prop :=
+  forall c steps s0,
+    cfg_ok c -> Forall fstep_wf steps -> short_enough steps -> initial c = Some s0 ->
+    exists bd0, FHL c 1 (fault_init s0) bd0 /\
+      (restarts_clean c (fault_init s0) bd0 steps ->
+       let h := fault_run c (fault_init s0) steps in
+       let nb := 1 + 2 * N.of_nat (length steps) in
+       exists bd, fbrun c (fault_init s0) bd0 steps h bd /\ FHL c nb h bd /\ FInv c nb h /\ FJH h).
+
+Theorem Link_fault_history : Link_fault_history_stmt.
+Proof. exact fault_hist_bytes. Qed.
+Print Assumptions Link_fault_history.
+
+(* (3) GETLOG OF THE RUNNING PROCESS FROM BYTES: the tail reader uses the
+   offsets of the ROLLED-BACK byte-level writer on a file that may hold the bytes
+   of failed batches behind the image; nothing of a failed batch is returned *)
+Theorem Link_fault_tail_read :
+  forall c tw info bs bd d idx l0,
+    wtail_link c tw info bs bd d -> 1 <= ws_base tw -> tail_lookup tw idx d = Some l0 ->
+    exists bf p, blookup (ws_name tw) bd = Some bf /\
+                 tail_get (wst info (cstate info bs)) (bf_data bf) idx = Reader.ROk p /\
+                 decode_log p = Some (codec_view l0).
+Proof. exact wtail_read. Qed.
+Print Assumptions Link_fault_tail_read.
+
+Theorem Link_fault_get_log :
+  forall c nb h bd idx l e',
+    FInv c nb h -> FHL c nb h bd -> FJH h -> st_closed (ss_wal (fs_s h)) = false ->
+    get_log (ss_wal (fs_s h)) idx (ss_env (fs_s h)) = (RLog l, e') ->
+    exists p, wbread c (ss_wal (fs_s h)) bd (fdisk h) idx p /\ decode_log p = Some l.
+Proof. exact fault_get_log. Qed.
+Print Assumptions Link_fault_get_log.
+
+(* (3) with fault_safety: what the NOMINAL state holds (calls that returned nil
+   applied, calls that returned an error not; after a restart: the state the
+   recovery presented) is what the bytes decode to *)
+Theorem Link_fault_nominal_bytes :
+  forall c nb h bd i l,
+    cfg_ok c -> nb + 2 < two64 -> FInv c nb h -> FHL c nb h bd -> FJH h -> st_closed (ss_wal (fs_s h)) = false ->
+    i < two64 -> spec_get (sp_log (fs_nom h)) i = Some l ->
+    exists p, wbread c (ss_wal (fs_s h)) bd (fdisk h) i p /\ decode_log p = Some l.
+Proof. exact fault_nominal_bytes. Qed.
+Print Assumptions Link_fault_nominal_bytes.
+
+(* (3) after a restart: the writer the byte-level recovery returns for a file
+   represents the writer L2's Open builds on the adopted file (entry count,
+   write offset, index start, commit index = LastIndex) *)
+Theorem Link_fault_restart_recovered :
+  forall c bd d n f e si,
+    wdrep c bd d -> stale_free bd d -> lookup n (dk_files d) = Some f ->
+    name_of si = n -> si_codec si = c_codec c -> e_disk e = adopt_disk d ->
+    exists bf bs', blookup n bd = Some bf /\
+      recover_state si (bf_data bf) = Some (wst si (cstate si bs')) /\
+      seg_recover si e = Some (Some (recw si (adopt_file f))) /\
+      rep_w (wst si (cstate si bs')) (recw si (adopt_file f)).
+Proof. exact restart_recovered. Qed.
+Print Assumptions Link_fault_restart_recovered.
+
+(* C. the branch of apply_act that EXTENDS a pending batch (Link_extend_pending,
+   Link_ex_merged_crash) is not taken in these histories: a linked tail writer
+   writes at the synced end, strictly before the end of a batch still pending *)
+Theorem Link_write_never_extends :
+  forall c tw info bs bd d f p,
+    wtail_link c tw info bs bd d -> lookup (ws_name tw) (dk_files d) = Some f -> df_pend f = Some p ->
+    ws_off tw < pb_end p.
+Proof. exact write_never_extends. Qed.
+Print Assumptions Link_write_never_extends.
+
+Theorem Link_stale_freeb_spec :
+  forall bd d, NoDup (map fst bd) -> stale_freeb bd d = true -> stale_free bd d.
+Proof. exact stale_freeb_spec. Qed.
+Print Assumptions Link_stale_freeb_spec.
+
+(* non-vacuity: the multi-failure history of Seg/FailFacts.v lifted to the WAL
+   (Link/FaultExamples.v): StoreLogs [1] ok; [2a;3a;4a] fsync fails; [2b;3b]
+   fsync fails; [2c] ok.  L2 accepts it; its tail file has 2 entries, ends at
+   152, nothing pending; the byte-level file of the same operations has the same
+   image of 152 bytes followed by NON-ZERO leftovers; stale_free holds; byte-level
+   recovery returns 2 entries / offset 152 / commit index 2 -- the tail writer
+   L2's Open installs after FRestart; and the history continues *)
+Example Link_ex_fault_history :
+  FaultHist.fs_ok fe_h = true /\
+  option_map (fun f => (llen (df_ents f), df_end f, df_seal f, df_pend f, df_dir f)) fe_tail_file = Some (2, 152, 0, None, true) /\
+  FailFacts.fs_ok fe_st = true /\ len (image fe_info (FailFacts.fs_bs fe_st)) = 152 /\
+  all_zero (skipn 152 (bf_data fe_bf)) = false /\
+  stale_freeb fe_bd fe_d = true /\
+  option_map (fun w => (len (w_offsets w), w_off w, w_commit_idx w)) (recover_state fe_info (bf_data fe_bf)) = Some (2, 152, 2) /\
+  option_map (fun tw => (ws_n tw, ws_off tw, ws_commit_idx tw)) (st_tail (ss_wal (FaultHist.fs_s fe_after_restart))) = Some (2, 152, 2) /\
+  FaultHist.fs_ok (fault_run fe_c (fault_init fe_s0) fe_steps) = true.
+Proof. vm_compute. repeat split; reflexivity. Qed.
+
+(* the concrete byte disk IS weakly related to L2's disk, is NOT strongly
+   related (leftovers), and the restart re-establishes the strong relation *)
+Example Link_ex_fault_wdrep :
+  wdrep fe_c fe_bd fe_d /\ stale_free fe_bd fe_d /\ drep fe_c (brestart fe_c fe_bd) (adopt_disk fe_d).
+Proof.
+  assert (Ed : dk_files fe_d = [(fe_n, match fe_tail_file with Some f => f | None => created 0 end)]) by (vm_compute; reflexivity).
+  assert (H : wdrep fe_c fe_bd fe_d).
+  { unfold wdrep, grel. rewrite Ed. constructor; [|constructor]. cbn [fst snd fe_bd].
+    split; [reflexivity|]. split; [repeat split; reflexivity|].
+    exists (FailFacts.fs_bs fe_st), None. constructor; cbn [opt_batch].
+    - constructor; vm_compute; reflexivity.
+    - replace (cur_ents (match fe_tail_file with Some f => f | None => created 0 end)) with (fe_b1 ++ fe_bc) by (vm_compute; reflexivity).
+      repeat constructor; try (vm_compute; intros; discriminate); try (vm_compute; reflexivity).
+    - vm_compute. reflexivity.
+    - exists (skipn 152 (bf_data fe_bf)). vm_compute. reflexivity.
+    - reflexivity. }
+  assert (Hs : stale_free fe_bd fe_d).
+  { apply stale_freeb_spec; [repeat constructor; intros []|vm_compute; reflexivity]. }
+  split; [exact H|]. split; [exact Hs|]. apply wrestart; [exact H| |exact Hs].
+  rewrite Ed. repeat constructor. intros [].
+Qed.
 
 (* ================================================================== *)
 (* Non-vacuity of sections 5 and 6: a concrete directory with two files  *)
